@@ -29,11 +29,11 @@ const ruleStruct = "JSON/XML/YAML producer then consumer on generated values (ne
 
 func Props() []kit.Runner {
 	return []kit.Runner{
-		kit.Prop[ConsumeCase]{ID: "C15", Name: "consume", Rule: ruleRaw, Quick: 40000, Thorough: 150000,
+		kit.Prop[ConsumeCase]{ID: "C15", Name: "consume", Rule: ruleRaw, Quick: 40000, Thorough: 400000,
 			Gen: GenConsume, Check: CheckConsume, Classify: ClassifyConsume, Enumerate: EnumConsume, SampleLimit: 700},
-		kit.Prop[ProduceCase]{ID: "C15", Name: "produce", Rule: ruleRaw, Quick: 40000, Thorough: 150000,
+		kit.Prop[ProduceCase]{ID: "C15", Name: "produce", Rule: ruleRaw, Quick: 40000, Thorough: 400000,
 			Gen: GenProduce, Check: CheckProduce, Classify: ClassifyProduce, Enumerate: EnumProduce, SampleLimit: 700},
-		kit.Prop[StructCase]{ID: "C15", Name: "structured", Rule: ruleStruct, Quick: 15000, Thorough: 80000,
+		kit.Prop[StructCase]{ID: "C15", Name: "structured", Rule: ruleStruct, Quick: 15000, Thorough: 200000,
 			Gen: GenStruct, Check: CheckStruct, Classify: ClassifyStruct},
 	}
 }
